@@ -3,3 +3,5 @@
 pub mod ordctl;
 pub mod recctl;
 pub mod sinkctl;
+pub mod arithctl;
+pub mod cellctl;
